@@ -24,6 +24,11 @@ const (
 func CalculateLoRaAirtime(payloadSize, sf, bandwidth, preambleNumber int, codingRate CodingRate, headerEnabled, lowDataRateOptimization bool) (time.Duration, error) {
 	symbolDuration := CalculateLoRaSymbolDuration(sf, bandwidth)
 	preambleDuration := CalculateLoRaPreambleDuration(symbolDuration, preambleNumber)
+	if sf <= 6 {
+		// SF5 and SF6 (SX126x / SX128x / LR11xx): the preamble takes
+		// n + 6.25 instead of n + 4.25 symbols.
+		preambleDuration += 2 * symbolDuration
+	}
 
 	payloadSymbolNumber, err := CalculateLoRaPayloadSymbolNumber(payloadSize, sf, codingRate, headerEnabled, lowDataRateOptimization)
 	if err != nil {
@@ -66,6 +71,12 @@ func CalculateLoRaPayloadSymbolNumber(payloadSize, sf int, codingRate CodingRate
 
 	a := 8*pl - 4*spreadingFactor + 28 + 16 - 20*h
 	b := 4 * (spreadingFactor - 2*de)
+	if sf <= 6 {
+		// SF5 and SF6 (SX126x / SX128x / LR11xx): the numerator has no + 8
+		// and there is no low data-rate optimization variant.
+		a = 8*pl - 4*spreadingFactor + 20 + 16 - 20*h
+		b = 4 * spreadingFactor
+	}
 	c := cr + 4
 
 	return int(8 + math.Max(math.Ceil(a/b)*c, 0)), nil
